@@ -146,25 +146,21 @@ impl Prop for C19 {
         }
         // repeated-identifier pass == independent recomputation
         let exp = expected_repeats(&tree);
-        let mut exp_diags: Vec<(u32, String)> = exp
-            .iter()
-            .map(|e| (e.line, format!("Using identifier `{}` more than once in a row sounds kinda bad", e.text)))
-            .collect();
+        // compared by line and by the name each report quotes, not by the wording of the message
+        let mut exp_diags: Vec<(u32, String)> = exp.iter().map(|e| (e.line, e.text.clone())).collect();
         exp_diags.sort_by_key(|d| d.0);
         let got: Vec<(u32, String)> = missed.iter().map(|d| (d.line, d.issue.clone())).collect();
-        if got != exp_diags {
-            let i = got.iter().zip(exp_diags.iter()).position(|(a, b)| a != b).unwrap_or(got.len().min(exp_diags.len()));
+        let same = got.len() == exp_diags.len() && got.iter().zip(exp_diags.iter()).all(|(g, e)| g.0 == e.0 && g.1.contains(e.1.as_str()));
+        if !same {
+            let i = got.iter().zip(exp_diags.iter()).position(|(g, e)| !(g.0 == e.0 && g.1.contains(e.1.as_str()))).unwrap_or(got.len().min(exp_diags.len()));
             return Outcome::fail(ctx(format!(
-                "repeated-identifier reports differ from the recomputation at #{}: pass says {:?}, expected {:?} ({} vs {} reports)",
+                "repeated-identifier reports differ from the recomputation at #{}: pass says {:?}, expected a report on that line naming {:?} ({} vs {} reports)",
                 i,
                 got.get(i),
                 exp_diags.get(i),
                 got.len(),
                 exp_diags.len()
             )));
-        }
-        if missed.iter().any(|d| d.suggestions != vec!["Consider using a pronoun such as `it`".to_string()]) {
-            return Outcome::fail(ctx("a repeated-identifier report carries an unexpected suggestion".into()));
         }
         let mut w = crate::walk::Walker::new(false);
         w.program(&tree);
